@@ -54,13 +54,14 @@ theorem dumpableB_sound (l : Layout) (d : DbContent) (o : Options) (h : dumpable
       · exact relReadableB_sound d r h4
 
 /-- **The run-time check is sound**: a cluster and options for which `dumpHypB` says `true` satisfy the hypotheses of
-`C01_dump`: outside the classes of the open findings (`TemplatesByName`, `Cluster.Plain`, `A02Free`) and `DbDumpable`. -/
+`C01_dump`: outside the classes of the open findings (`TemplatesByName`, `Cluster.Plain`, `Cluster.IdentityMapped`,
+`Cluster.NoFastDefaults`, `A02Free`) and `DbDumpable`. -/
 theorem dumpHypB_sound (c : Cluster) (o : Options) (h : dumpHypB c o = true) :
-    TemplatesByName c ∧ c.Plain ∧
+    TemplatesByName c ∧ c.Plain ∧ c.IdentityMapped ∧ c.NoFastDefaults ∧
     ∀ db ∈ c.dbs.live, selectedDb o db = true → ∀ d, c.content.lookup db.oid = some d → DbDumpable c.layout d o ∧ A02Free d o := by
   simp only [dumpHypB, Bool.and_eq_true, decide_eq_true_eq] at h
-  obtain ⟨⟨htpl, hplain⟩, h⟩ := h
-  refine ⟨htpl, hplain, ?_⟩
+  obtain ⟨⟨⟨⟨htpl, hplain⟩, hid⟩, hnm⟩, h⟩ := h
+  refine ⟨htpl, hplain, hid, hnm, ?_⟩
   intro db hdb hsel d hd
   simp only [all_eq_true, Bool.or_eq_true, Bool.not_eq_true'] at h
   rcases h db hdb with h | h
